@@ -173,16 +173,21 @@ uint64_t cmb_timeseries_summarize(const struct cmb_timeseries *tsp,
                                   struct cmb_wtdsummary *wsp)
 {
     cmb_assert_release(tsp != NULL);
-    cmb_assert_release(tsp->ta != NULL);
     cmb_assert_release(wsp != NULL);
 
     const struct cmb_dataset *dsp = (struct cmb_dataset *)tsp;
     cmb_assert_release(dsp->cookie == CMI_INITIALIZED);
-    cmb_assert_debug(dsp->xa != NULL);
 
     cmb_wtdsummary_initialize(wsp);
     const uint64_t un = cmb_timeseries_count(tsp);
-    cmb_assert_debug(un > 0u);
+    if (un == 0u) {
+        /* Nothing recorded (the report of an object that never was asked to
+         * record, say): an empty summary */
+        return 0u;
+    }
+
+    cmb_assert_debug(dsp->xa != NULL);
+    cmb_assert_debug(tsp->ta != NULL);
     /* All samples: the one that closes the series has weight zero and does
      * not count, but after cmb_timeseries_sort_x() it is not the last one */
     for (uint64_t ui = 0u; ui < un; ui++) {
